@@ -85,6 +85,8 @@ def run(res, tier, seed, shard, nshards):
         cases.append(("multi", i))
     for i in range(60 if tier == "quick" else 6000):
         cases.append(("large", i))
+    for i in range(120 if tier == "quick" else 3000):
+        cases.append(("two-connections", i))
 
     def scen():
         for i, c in enumerate(cases):
@@ -95,6 +97,8 @@ def run(res, tier, seed, shard, nshards):
                 stream = build_message(rng, R.TEXT if is_text else R.BINARY, payload, comp, gaps) + R.encode(R.BINARY, b"SENT")
                 call = CALLS[(i // nshards) % len(CALLS)]
                 judge(res, W, stream, call, pf, skip, ("one", is_text, payload, comp, gaps), len(comp) >= 2 or any(g != "none" for g in gaps))
+            elif c[0] == "two-connections":
+                two_connections_case(res, W, rng)
             elif c[0] == "multi":
                 nm = rng.randrange(2, 4)
                 stream = b""
@@ -149,3 +153,53 @@ def judge(res, W, stream, call, pf, skip, tag, nontrivial, chunk=None):
         res.violation(kind, f"{tag} pf={pf} skip={skip}: {detail}", case, per_fragment=pf, skip=skip, **fields)
     if nontrivial:
         res.sample(case, cap=3)
+
+
+def two_connections_case(res, W, rng):
+    """Two (or three) WebSocket objects of one process, each in the middle of its own fragmented message, served
+    alternately: reassembly state is per connection."""
+    n = rng.choice([2, 2, 3])
+    pf = rng.randrange(2)
+    conns = []
+    for ci in range(n):
+        is_text = rng.random() < 0.5
+        body = (f"conn{ci}-".encode() + bytes(rng.randrange(0x61, 0x7b) for _ in range(rng.randrange(1, 9)))) if is_text else b"C%d" % ci + rng.randbytes(rng.randrange(1, 9))
+        k = rng.randrange(2, 5)
+        cuts = sorted(rng.randrange(0, len(body) + 1) for _ in range(k - 1))
+        comp = tuple(b - a for a, b in zip([0] + cuts, cuts + [len(body)]))
+        # a ping after every fragment hands control back to the caller mid-message (control_frame=True)
+        gaps = ("none",) + ("ping",) * k
+        stream = build_message(rng, R.TEXT if is_text else R.BINARY, body, comp, gaps) + R.encode(R.BINARY, b"SENT%d" % ci)
+        nframes = len(R.decode_all(stream)[0])
+        script = [("recv_data_frame", True)] * (nframes + 1)
+        pred, model = M.predict(stream, script, ending="eof", per_fragment=bool(pf))
+        w, conn, peer = H.connected_ws(after=stream, ws_kwargs={"fire_cont_frame": bool(pf)}, timeout=2)
+        conn.peer_close()
+        conns.append(dict(w=w, conn=conn, peer=peer, stream=stream, pred=pred, trace=[], done=False, resp_len=len(peer.response_bytes)))
+    # round-robin with random bursts
+    while not all(c["done"] for c in conns):
+        c = rng.choice([x for x in conns if not x["done"]])
+        for _ in range(rng.randrange(1, 3)):
+            before = len(c["peer"].client_stream)
+            try:
+                v = c["w"].recv_data_frame(True)
+                out = ("ret", H.shape_value("recv_data_frame", v))
+            except Exception as e:  # noqa
+                out = ("exc", H.classify_exc(W, e), repr(e)[:120], H.repo_frame_of(e))
+            written = bytes(c["peer"].client_stream[before:])
+            frames, rest = R.decode_all(written)
+            c["trace"].append({"call": "recv_data_frame", "cf": True, "out": out, "writes": [(f.opcode, f.payload, f.fin, f.masked, f.rsv) for f in frames],
+                               "write_rest": len(written) - rest, "consumed": c["conn"].consumed - c["resp_len"]})
+            if out[0] == "exc" or not c["w"].connected:
+                c["done"] = True
+                break
+    from ..core import h64
+    res.case(("two-connections", tuple(h64(c["stream"]) for c in conns), pf), nontrivial=True)
+    res.count("two_connection_cases")
+    res.count("multi_fragment_cases")
+    for ci, c in enumerate(conns):
+        issues, judged, unj = M.compare(c["pred"], {"trace": c["trace"]}, per_fragment=bool(pf))
+        res.count("messages_compared", judged)
+        case = {"tag": "two-connections", "connection": ci, "of": n, "stream": c["stream"], "per_fragment": pf}
+        for kind, detail, fields in issues:
+            res.violation(kind, f"connection {ci} of {n} served alternately (pf={pf}): {detail}", case, per_fragment=pf, skip=0, concurrent_connections=n, **fields)
